@@ -1,7 +1,7 @@
 //! The `map` core library module
 
 use super::{
-    iterator::adaptors,
+    iterator::{adaptors, reserved_capacity},
     value_sort::{compare_values, try_sort_by},
 };
 use crate::{Result, prelude::*};
@@ -52,7 +52,7 @@ pub fn make_module() -> KMap {
 
                 // Collect the entries before borrowing the map,
                 // the iterator might be reading from the map that's being extended.
-                let (size_hint, _) = iterator.size_hint();
+                let size_hint = reserved_capacity(&iterator);
                 let mut entries = Vec::with_capacity(size_hint);
                 for output in iterator {
                     use KIteratorOutput as Output;
